@@ -44,6 +44,10 @@ def vacuity(r):
         return f"{s['harness_err']} cases could not be executed by the harness"
     if not r.get("n_gen") and not r.get("n_emitted"):
         return None                                   # --replay of a single case
+    # a Level-A failure on a generated case is reported by the decision step; the complaints below are about
+    # a run that was quiet for the wrong reason
+    if any("known_input" not in b["desc"] for b in r.get("bad", {}).values()):
+        return None
     if s.get("steps", 0) == 0 or runs == 0:
         return "no run was recorded"
     if s.get("runs_ok", 0) * 2 < runs:
@@ -55,6 +59,94 @@ def vacuity(r):
     if s.get("dom_short", 0) == 0 or s.get("dom_light", 0) == 0:
         return "the known inputs of F-C03-1 / F-C03-2 were not replayed"
     return None
+
+
+# ---- selftest (bin/selftest control): every invariant can fail, at the corrupted line -------------------------------
+
+def _find(lines, pred):
+    for i, e in enumerate(lines):
+        if pred(e):
+            return i
+    return None
+
+
+def _steps_line(lines):
+    # a chunk in the middle of a run (the train is moving)
+    return _find(lines, lambda e: e.get("ev") == "Steps" and len(e["s"]) > 40 and e["s"][30][3] > 65536)
+
+
+def _corrupt_step(field, value, expect):
+    def f(lines):
+        i = _steps_line(lines)
+        if i is None:
+            return None
+        rec = lines[i]["s"][30]
+        rec[field] = value(rec, lines[i]["s"][29]) if callable(value) else value
+        return lines, i, expect
+    return f
+
+
+def _corrupt_final(patch, expect):
+    def f(lines):
+        i = _find(lines, lambda e: e.get("ev") == "Final" and e["ok"] and e["msg"] == "")
+        if i is None:
+            return None
+        lines[i].update(patch(lines[i]) if callable(patch) else patch)
+        return lines, i, expect
+    return f
+
+
+def _replace_walk(ev, expect):
+    def f(lines):
+        i = _find(lines, lambda e: e.get("ev") == "Walk")
+        if i is None:
+            return None
+        lines[i] = dict(ev, case=lines[i]["case"])
+        return lines, i, expect
+    return f
+
+
+def _corrupt_table(fn, expect):
+    def f(lines):
+        i = _find(lines, lambda e: e.get("ev") == "Table" and e["ok"] and len(e["pts"]) > 6 and all(p[0] > 0 for p in e["pts"][:4]))
+        if i is None:
+            return None
+        fn(lines[i]["pts"])
+        return lines, i, expect
+    return f
+
+
+def _tbl_limit(pts):
+    pts[2][1] = pts[2][2] = 1 << 24
+
+
+def _tbl_target(pts):
+    pts[2][3] = pts[2][2] + 1000
+
+
+def _tbl_order(pts):
+    pts[3][0] = pts[2][0] + 64 * 500
+
+
+CORRUPT = {
+    "negative_speed": _corrupt_step(3, -5, {"NonNeg"}),
+    "overspeed": _corrupt_step(3, 1 << 24, {"Posted"}),
+    "reported_limit_below_speed": _corrupt_step(5, lambda rec, prv: prv[3] - 100, {"Reported"}),
+    "target_above_limit": _corrupt_step(6, lambda rec, prv: rec[5] + 100, {"TargetLeLimit"}),
+    "limit_above_posted": _corrupt_step(4, 1 << 24, {"LimitLePosted"}),
+    "front_moves_back": _corrupt_step(2, lambda rec, prv: prv[2] - 640, {"NoReverse"}),
+    "stops_short": _corrupt_final(lambda e: {"o": e["end"] - 64 * 400}, {"StopWindow"}),
+    "stops_beyond_end": _corrupt_final(lambda e: {"o": e["end"] + 64}, {"StopWindow"}),
+    "ends_moving": _corrupt_final({"v": 3, "vc": 4}, {"StopWindow"}),
+    "error_without_text": _corrupt_final({"ok": False, "msg": ""}, {"EndOk"}),
+    "internal_error": _corrupt_final({"ok": False, "msg": "Power wheel out is larger than max positive power!", "cls": "internal"}, {"NoInternalErr"}),
+    "step_cap": _replace_walk({"ev": "stepcap", "steps": 1}, {"StepCap"}),
+    "panic": _replace_walk({"ev": "panic", "msg": "boom"}, {"NoPanic"}),
+    "timeout": _replace_walk({"ev": "timeout", "rc": 97, "msg": ""}, {"NoPanic"}),
+    "table_limit_above_posted": _corrupt_table(_tbl_limit, {"TableSafe"}),
+    "table_target_above_limit": _corrupt_table(_tbl_target, {"TargetLeLimit"}),
+    "table_offsets_out_of_order": _corrupt_table(_tbl_order, {"TableMonotone"}),
+}
 
 
 RULE = ("cases = seeded random single-line networks (2-8 links, 300 m-6 km, nested/overlapping head- and tail-end "
@@ -70,10 +162,13 @@ ASSUME = ["networks are materialised through Network::from_json (validation acce
           "speeds are logged floor/ceil at 2^-16 m/s on the left/right side of a comparison, offsets at 2^-6 m with the posted "
           "limit taken as the maximum over the rounding cell: rounding can hide an excess < 1 unit, never invent one",
           "inputs of the classes ShortWindow (F-C03-1) and LightTrain (F-C03-2) are excluded from random generation by "
-          "input-level predicates and represented by materialised known inputs; a descriptive Err ends a run legitimately",
+          "input-level predicates and represented by materialised known inputs; a descriptive Err ends a run legitimately, an "
+          "Err raised by one of the solver's own consistency checks (ensure! on the power / force bounds it has just computed) "
+          "does not",
           "make_est_times is observed through its exit status only (Ok / Err / panic)"]
 
-_INV = ["NonNeg", "NoReverse", "Posted", "Reported", "TargetLeLimit", "LimitLePosted", "StopWindow", "EndOk", "NoPanic", "StepCap",
+_INV = ["NonNeg", "NoReverse", "Posted", "Reported", "TargetLeLimit", "LimitLePosted", "StopWindow", "EndOk", "NoInternalErr",
+        "NoPanic", "StepCap",
         "TableSafe", "TableMonotone"]
 
 GROUP = dict(
@@ -85,8 +180,8 @@ GROUP = dict(
                      dict(cfg="MCBrakingCurve_thorough.cfg", emit=True, max_emit=20000, workers=16, timeout=1800)],
     },
     gen_n={"quick": 300, "thorough": 4000},
-    per_case_ms=60000,
-    harness_timeout={"quick": 600, "thorough": 1800},
+    per_case_ms=5000,         # a normal run takes 1-30 ms, the longest known stuck run (35 000 steps) 0.2 s
+    harness_timeout={"quick": 1500, "thorough": 3600},
     trace_timeout={"quick": 600, "thorough": 1800},
     trace_xmx="10g",
     nontrivial=nontrivial,
@@ -102,6 +197,11 @@ GROUP = dict(
     },
     sigs={"short_window": sig_short_window, "light_train": sig_light_train},
     vacuity=vacuity,
+    # bin/selftest: the pinned algorithm on EVERY profile must violate the table invariants (re-finds F-C03-1) ...
+    fault_models=[dict(cfg="MCBrakingCurve_pinned.cfg", expect=["TableSafe", "TargetLeLimit", "Monotone"]),
+                  dict(cfg="MCBrakingCurve_underflow.cfg", expect=["NoUnderflow"])],
+    # ... and every monitor of the trace spec must fail at exactly the record that was corrupted
+    corrupt=CORRUPT, selftest_cases=12,
 )
 
 ENGINE = dict(name="Control", path="specs/Control.tla", serves_properties=["C03"],
